@@ -43,13 +43,18 @@ ClassC(rule) ==      \* for zbus's reader
 Outcome(p) == IF p.ok THEN [ok |-> TRUE, rule |-> NormRule(p.rule)] ELSE [ok |-> FALSE]
 Shape(p)   == IF p.ok THEN [ok |-> TRUE, rule |-> p.rule] ELSE [ok |-> FALSE]
 
+(* a rule with its argument lists as sets: what the getters show after builder calls given in any order *)
+AsSets(x) == [x EXCEPT !.args = {x.args[j] : j \in 1..Len(x.args)}, !.arg_paths = {x.arg_paths[j] : j \in 1..Len(x.arg_paths)}]
+
 RuleStrChecks(r) ==
   IF ~r.built THEN Report("not-built", r.err)
   ELSE
     LET rule == NormRule(r.rule)
         want == [ok |-> TRUE, rule |-> rule]
     IN
-    /\ (NormRule(r.self) = rule \/ Report("harness-self", [self |-> r.self]))
+    /\ (NormRule(r.self) = rule
+        \/ (Has(r.rule, "ops") /\ AsSets(NormRule(r.self)) = AsSets(rule))   \* order is judged by zbus-reparse below
+        \/ Report("harness-self", [self |-> r.self]))
     /\ (ParseRule(r.str) = want
         \/ Report("str-conformant",
                   [class |-> ClassA(rule), spec_reads |-> Shape(ParseRule(r.str)),
